@@ -29,6 +29,7 @@ def run(ctx):
         if o.cls == "ASAM::CMP::MessageHeader" and "SegmentType" in o.key:
             res.check(o.ok, "C08-R2", o.key, o.loc, o.detail)
     E.rule_type_change_rebuilds_template(res, "C08-R3", m)
+    E.rule_type_change_opens_frame(res, "C08-R3", m)
     n4 = E.rule_fit_decided_on_fresh_frame(res, "C08-R4", m)
     E.rule_batch_order(res, "C08-R5", m)
     E.rule_header_fully_stamped(res, "C08-R6", m)
